@@ -764,3 +764,15 @@ pub mod pool;
 pub fn executor_fn() -> warp_core::ExecuteFn {
     executor
 }
+
+impl Program {
+    /// The dishonest variant that omits exactly `item` from the declared footprint
+    /// (`None` if the honest footprint does not contain it).
+    pub fn omitting_item(&self, item: FpItem) -> Option<Program> {
+        let items = self.honest_items(Scope { w: 0 });
+        items
+            .iter()
+            .position(|i| *i == item)
+            .map(|k| self.omitting(k as u8))
+    }
+}
